@@ -139,4 +139,63 @@ theorem C06_trace_writes_in_tx : ∀ (ks : List Kind) (inTx wrote : Bool) (n m :
         have := ih false wrote n m hc rfl pre' post rfl
         exact List.mem_cons_of_mem _ this
 
+/-! ### `remove`: a sequence of brackets, one per matched lexicon -/
+
+def lift (body : List (σ → σ)) : List (σ → Option σ) := body.map (fun g s => some (g s))
+
+theorem bracket_working_none (c : Conn σ) (body : List (σ → Option σ)) : (bracket c body).1.working = none :=
+  go_working_none c body
+
+theorem brackets_success (done : List (List (σ → σ))) :
+    ∀ (c : Conn σ), c.working = none →
+      (brackets c (done.map lift)).1.committed = done.foldl (fun s body => body.foldl (fun s g => g s) s) c.committed ∧
+      (brackets c (done.map lift)).1.working = none ∧ (brackets c (done.map lift)).2 = true := by
+  induction done with
+  | nil => intro c hc; exact ⟨rfl, hc, rfl⟩
+  | cons b rest ih =>
+    intro c hc
+    obtain ⟨h1, h2⟩ := C06_success c hc b
+    simp only [List.map_cons, brackets, lift] at *
+    rw [h2]
+    simp only [if_true, List.foldl_cons]
+    have := ih (bracket c (b.map (fun g s => some (g s)))).1 (bracket_working_none _ _)
+    rw [h1] at this
+    exact this
+
+theorem brackets_append (xs ys : List (List (σ → Option σ))) :
+    ∀ (c : Conn σ), brackets c (xs ++ ys) =
+      if (brackets c xs).2 then brackets (brackets c xs).1 ys else brackets c xs := by
+  induction xs with
+  | nil => intro c; simp [brackets]
+  | cons b rest ih =>
+    intro c
+    simp only [List.cons_append, brackets]
+    by_cases hb : (bracket c b).2 = true
+    · simp only [hb, if_true]; exact ih _
+    · simp only [hb, if_false]
+      simp [hb]
+
+/-- **C06, interrupted removal**: `remove` deletes the matched lexicons one transaction each.  If
+the deletion of the `k`-th one is interrupted at any statement, the lexicons before it are gone
+(their transactions were committed), the `k`-th lexicon and its extensions are exactly as they
+were — nothing of its transaction is kept —, the later ones are not touched, and no transaction
+stays open. -/
+theorem C06_interrupted_remove (c : Conn σ) (hc : c.working = none) (done : List (List (σ → σ)))
+    (bad : List (σ → Option σ)) (later : List (List (σ → Option σ)))
+    (hfail : (bracket (brackets c (done.map lift)).1 bad).2 = false) :
+    let r := brackets c (done.map lift ++ [bad] ++ later)
+    r.1.committed = done.foldl (fun s body => body.foldl (fun s g => g s) s) c.committed ∧
+    r.1.working = none ∧ r.2 = false := by
+  obtain ⟨s1, s2, s3⟩ := brackets_success done c hc
+  obtain ⟨a1, a2⟩ := C06_atomic _ bad hfail
+  simp only [List.append_assoc, brackets_append, s3, if_true, List.cons_append, List.nil_append, brackets, hfail]
+  simp only [Bool.false_eq_true, if_false]
+  exact ⟨by rw [a1, s1], a2, hfail⟩
+
+/-- non-vacuity: three lexicons, the second removal fails at its second statement -/
+example : (brackets (σ := List Nat) ⟨[1, 2, 3], none⟩
+    [[fun s => some (s.erase 1)], [fun s => some (s.erase 2), fun _ => none], [fun s => some (s.erase 3)]]).1.committed = [2, 3] := by
+  decide
+
+
 end WnVerif.Props.C06
